@@ -242,6 +242,47 @@ def _d1(chk, fb):
                 chk.refuted("D1", f.key, "validate-then-apply", f.loc(call), "; ".join(why), witness={"store": "%s.setValue(%s)" % (T2, V2)})
             else:
                 chk.unknown("D1", f.key, "validate-then-apply", f.loc(call), "; ".join(unsure + why) or "no matching validation pass recognised")
+        # the apply pass may not discover a refusal of its own: a look-up that throws for an absent name (X.parameter(K)), made for
+        # every entry of the apply loop, is made by the validation pass for every entry too - under no condition the apply pass
+        # does not have.  Otherwise an absent name is found only after earlier entries were stored
+        if name != "testParametersValues" and applies and checks:
+            def lookups(lp):
+                out = []
+                for x in walk(lp):
+                    if is_call(x) and x["callee"]["name"] in ("parameter", "getParameter") and x["callee"].get("cls") == PL and f.args(x) and "basic_string" in (x["callee"].get("ptypes") or [""])[0]:
+                        out.append(x)
+                return out
+            lp2 = applies[0][0]
+            for c2 in lookups(lp2):
+                t2 = R(c2, lp2)
+                f2 = _filters(f, c2, lp2, sub)
+                cands = [(lp1, c1) for lp1 in loops if lp1 is not lp2 and loops.index(lp1) < loops.index(lp2) for c1 in lookups(lp1) if R(c1, lp1) == t2]
+                if not cands or f2 is None:
+                    continue
+                best = None
+                for lp1, c1 in cands:
+                    f1 = _filters(f, c1, lp1, sub)
+                    if f1 is None:
+                        best = "?"
+                        break
+                    import re as _re
+                    # (the loop's own continuation test is not a filter of the entry)
+                    nz = lambda F: {(t_.replace("(*@e)", "@e").replace("&", "").replace("(*", "(").replace("*", ""), tr_) for t_, tr_ in F
+                                    if not _re.match(r"^\(?@[ei] (<|!=|<=) ", t_) and not _re.match(r"^\(?\w+ (<|!=) [\w\.]+\.(size|end)\(\)\)?$", t_)}
+                    extra = sorted(nz(f1) - nz(f2))
+                    if not extra:
+                        best = "ok"
+                        break
+                    best = (c1, extra)
+                if best == "ok":
+                    chk.proved("D1", f.key, "lookup-validated:" + t2[:50], f.loc(c2), "the look-up %s of the apply pass is made for every entry by the validation pass" % t2)
+                elif best == "?" or best is None:
+                    chk.unknown("D1", f.key, "lookup-validated:" + t2[:50], f.loc(c2), "filters of the validation pass not readable")
+                else:
+                    chk.refuted("D1", f.key, "lookup-validated:" + t2[:50], f.loc(best[0]),
+                                "the apply pass looks up %s for every entry (it throws for an absent name), the validation pass only when %s: a name missing from the source is discovered after earlier entries were already stored" % (
+                                    t2, ", ".join("%s is %s" % (a_, "true" if b_ else "false") for a_, b_ in best[1])),
+                                witness={"history": "target list (a, b) both unconstrained, source list holding only a: the call throws ParameterNotFoundException after a was overwritten"})
     chk.floor("D1", "bulk setters with a matching validation pass", n_ok + sum(1 for s in chk.sites if s["rule"] == "D1" and s["verdict"] != "PROVED"), 4)
 
 
@@ -626,6 +667,61 @@ def _d6(chk, fb):
     chk.floor("D6", "owner entry points", n, 4)
 
 
+def _d9(chk, fb):
+    """'including or sharing [an existing name] turns into a value update': in every include* / share* member of ParameterList that
+    branches on hasParameter(name) with an insertion on the absent side, the present side stores through Parameter::setValue
+    (directly or through setParameterValue), the one store that tests the target's constraint.  A whole-object assignment
+    (Parameter::operator=) or a replaced pointer there carries value, constraint and listeners over without any test: refuted.
+    Members that only delegate each element to such a member are proved by delegation"""
+    PL = "bpp::ParameterList"
+    fs = [f for f in fb.concrete_fns() if f.cls == PL and f.body is not None and (f.name.startswith("include") or f.name.startswith("share")) and "SubList" not in f.name]
+    n = 0
+
+    def reaches_setvalue(g, node, depth=0):
+        for c in walk(node):
+            if not is_call(c):
+                continue
+            if c["callee"]["name"] == "setValue" and (c["callee"].get("cls") or "").startswith("bpp::Parameter"):
+                return True
+            if depth < 2 and c["callee"].get("cls") == PL and c["callee"].get("inrepo") and c["callee"]["name"].startswith("set"):
+                for t in fb.targets(c, static_type_only=True):
+                    if t.body is not None and t.key != g.key and reaches_setvalue(t, t.body, depth + 1):
+                        return True
+        return False
+    for f in sorted(fs, key=lambda x: x.key):
+        sites = []
+        for iff in [x for x in walk(f.body) if x["k"] == "IfStmt" and "else" in x]:
+            ct = render(f.nodes[iff["cond"]], local_inits(f))
+            if "hasParameter(" not in ct:
+                continue
+            neg = ct.startswith("(!") or ct.startswith("!")
+            present, absent = (f.nodes[iff["else"]], f.nodes[iff["then"]]) if neg else (f.nodes[iff["then"]], f.nodes[iff["else"]])
+            if not any(is_call(c) and c["callee"]["name"] in ("push_back", "emplace_back", "insert") for c in walk(absent)):
+                continue
+            sites.append((iff, present))
+        if not sites:
+            deleg = [c for c in f.calls() if c["callee"].get("cls") == PL and (c["callee"]["name"].startswith("include") or c["callee"]["name"].startswith("share")) and "SubList" not in c["callee"]["name"]]
+            if deleg:
+                n += 1
+                chk.proved("D9", f.key, "collision-is-value-update", f.loc(deleg[0]), "delegates each element to %s" % deleg[0]["callee"]["name"])
+            continue
+        for iff, present in sites:
+            n += 1
+            whole = [c for c in walk(present) if is_call(c) and c["callee"]["name"] == "operator=" and (c["callee"].get("cls") or "") in ("bpp::Parameter", "bpp::AutoParameter")]
+            repl = [c for c in walk(present) if (is_call(c) and c["callee"]["name"] in ("operator=", "reset") and "obj" in c and "parameters_" in render(f.obj(c)))
+                    or (c["k"] == "BinaryOperator" and c.get("op") == "=" and "parameters_" in render(kids(c)[0]))]
+            if reaches_setvalue(f, present) and not whole and not repl:
+                chk.proved("D9", f.key, "collision-is-value-update", f.loc(iff), "an existing name is updated through Parameter::setValue (constraint tested)")
+            elif whole or repl:
+                b = (whole + repl)[0]
+                chk.refuted("D9", f.key, "collision-is-value-update", f.loc(b),
+                            "on a name collision %s stores with '%s' instead of a value update through setValue: value, precision, constraint and listeners of the existing entry are replaced and the value is never tested against the entry's constraint" % (f.name, render(b)[:70]),
+                            witness={"history": "list {a in [0,1] = 0.5}; %s(list {a = 7})" % f.name})
+            else:
+                chk.unknown("D9", f.key, "collision-is-value-update", f.loc(iff), "how the existing entry is updated is not in a recognised form")
+    chk.floor("D9", "include/share members", n, 3)
+
+
 def _d7(chk, fb):
     """'adding a parameter whose name is already present is refused': every ParameterList::addParameter* overload either
     throws ParameterException under hasParameter(<name of the added parameter>) before inserting, or delegates each
@@ -731,6 +827,8 @@ def run(chk, fb, tier):
     _d7(chk, fb)
     chk.rule("D8", "a loop erasing the positions of a caller-supplied index set visits them in descending order (sorted copy walked backwards)")
     _d8(chk, fb)
+    chk.rule("D9", "include*/share* members: on an existing name the entry is updated through Parameter::setValue (directly or via setParameterValue), never by whole-object assignment or pointer replacement")
+    _d9(chk, fb)
     from . import copyrule
     chk.rule("DC", "copy constructor and copy assignment copy the same members; operator= empties a member container before re-populating it; copy functions never assign through a stored shared pointer")
     copyrule.check(chk, fb, "DC", lambda c: c["file"].endswith(("Bpp/Numeric/ParameterList.h",)), floor=1)
